@@ -954,24 +954,27 @@ Definition unext_tail (tl : tailspec) (vs : list cval) : list bytes :=
   | _, _ => []
   end.
 
-(* (name tokens, tag, positional kinds, tail) of every RSimple row, containers flattened *)
-Definition simple_of (path : list bytes) (t : list (bytes * rule))
-  : list (list bytes * string * list kind * tailspec) :=
+(* every RSimple row with the name tokens that lead to it, containers flattened *)
+Definition simple_of (path : list bytes) (t : list (bytes * rule)) : list (list bytes * rule) :=
   flat_map (fun nr => match snd nr with
-                      | RSimple tag pre tl _ => [(path ++ [fst nr], tag, pre, tl)]
+                      | RSimple _ _ _ _ => [(path ++ [fst nr], snd nr)]
                       | RCustom _ _ _ _ => []
                       end) t.
-Definition simple_index : list (list bytes * string * list kind * tailspec) :=
-  simple_of [] grammar
-  ++ simple_of [tx "CONFIG"] config_tbl ++ simple_of [tx "ACL"] acl_tbl
-  ++ simple_of [tx "SCRIPT"] script_tbl ++ simple_of [tx "FUNCTION"] function_tbl
-  ++ simple_of [tx "CLIENT"] client_tbl ++ simple_of [tx "OBJECT"] object_tbl
-  ++ simple_of [tx "DEBUG"] debug_tbl.
-Fixpoint find_tag (tag : string) (ix : list (list bytes * string * list kind * tailspec))
+Definition subtables : list (bytes * list (bytes * rule)) :=
+  [ (tx "CONFIG", config_tbl); (tx "ACL", acl_tbl); (tx "SCRIPT", script_tbl);
+    (tx "FUNCTION", function_tbl); (tx "CLIENT", client_tbl); (tx "OBJECT", object_tbl);
+    (tx "DEBUG", debug_tbl) ].
+Definition simple_index : list (list bytes * rule) :=
+  simple_of [] grammar ++ flat_map (fun ct => simple_of [fst ct] (snd ct)) subtables.
+Fixpoint find_tag (tag : string) (ix : list (list bytes * rule))
   : option (list bytes * list kind * tailspec) :=
   match ix with
   | [] => None
-  | (path, t, pre, tl) :: r => if String.eqb tag t then Some (path, pre, tl) else find_tag tag r
+  | (path, r) :: rest =>
+      match r with
+      | RSimple t pre tl _ => if String.eqb tag t then Some (path, pre, tl) else find_tag tag rest
+      | RCustom _ _ _ _ => find_tag tag rest
+      end
   end.
 
 Definition opt_val (kw : bytes) (k : kind) (v : cval) : list (bool * bytes) :=
@@ -1148,4 +1151,112 @@ Fixpoint lua_to_resp (v : lval) : resp :=
                              end) arr))
           end
       end
+  end.
+
+(* ------------------------------------------------------------------ canonical commands *)
+(* [canonical c]: c is a command value the grammar can produce (fields of the right kinds
+   and ranges, strings valid UTF-8, option combinations the parsers accept). *)
+Definition in_range (lo hi z : Z) : bool := (lo <=? z)%Z && (z <=? hi)%Z.
+Definition wf_val (k : kind) (v : cval) : bool :=
+  match k, v with
+  | KStr, VS s => bytes_eqb (lossy s) s
+  | KUpStr, VS s => bytes_eqb (ustr s) s
+  | KSds, VB _ => true
+  | KInt, VI z => in_range I64_MIN I64_MAX z
+  | (KUsz | KU64 | KU64bit | KUszStr), VI z => in_range 0 U64_MAX z
+  | KBit, VI z => in_range 0 1 z
+  | KOffset, VI z => in_range 0 I64_MAX z
+  | KFloat, VF t => bytes_eqb (lossy t) t && match float_class t with Some _ => true | None => false end
+  | KFinite, VF t => bytes_eqb (lossy t) t && match float_class t with Some FFin => true | _ => false end
+  | KDb, VI z => in_range 0 15 z
+  | KU32Str, VI z => in_range 0 U32_MAX z
+  | _, _ => false
+  end.
+Fixpoint wf_pre (pre : list kind) (vs : list cval) : bool :=
+  match pre, vs with
+  | [], [] => true
+  | k :: pre', v :: vs' => wf_val k v && wf_pre pre' vs'
+  | _, _ => false
+  end.
+Definition wf_pair (k1 k2 : kind) (v : cval) : bool :=
+  match v with VP a b => wf_val k1 a && wf_val k2 b | _ => false end.
+Definition nonempty {A} (l : list A) : bool := match l with [] => false | _ => true end.
+Definition wf_tail (tl : tailspec) (vs : list cval) : bool :=
+  match tl, vs with
+  | (TNone | TAny), [] => true
+  | TList0 k, [VL l] => forallb (wf_val k) l
+  | TList k, [VL l] => nonempty l && forallb (wf_val k) l
+  | TPairs k1 k2, [VL l] => nonempty l && forallb (wf_pair k1 k2) l
+  | _, _ => false
+  end.
+Definition wf_opt (k : kind) (v : cval) : bool :=
+  match v with VOpt None => true | VOpt (Some x) => wf_val k x | _ => false end.
+Definition is_flag (v : cval) : bool := match v with VFlag _ => true | _ => false end.
+Definition flag_of (v : cval) : bool := match v with VFlag b => b | _ => false end.
+Definition is_some (v : cval) : bool := match v with VOpt (Some _) => true | _ => false end.
+Definition is_dir (s : bytes) : bool := bytes_eqb s (tx "LEFT") || bytes_eqb s (tx "RIGHT").
+Definition none_lookup {A} (n : bytes) (t : list (bytes * A)) : bool :=
+  match lookup n t with None => true | Some _ => false end.
+
+Definition canonical_custom (tag : string) (a : list cval) : bool :=
+  match tag, a with
+  | "Ping", [VOpt None] => true
+  | "Ping", [VOpt (Some m)] => wf_val KSds m
+  | "Auth", [VOpt None; p] => wf_val KStr p
+  | "Auth", [VOpt (Some u); p] => wf_val KStr u && wf_val KStr p
+  | "Set", [k; v; ex; px; exat; pxat; nx; xx; g; kt] =>
+      wf_val KStr k && wf_val KSds v && wf_opt KInt ex && wf_opt KInt px && wf_opt KInt exat
+      && wf_opt KInt pxat && is_flag nx && is_flag xx && is_flag g && is_flag kt
+      && negb (flag_of nx && flag_of xx)
+      && negb (flag_of kt && (is_some ex || is_some px || is_some exat || is_some pxat))
+  | "GetEx", [k; ex; px; exat; pxat; ps] =>
+      wf_val KStr k && wf_opt KInt ex && wf_opt KInt px && wf_opt KInt exat && wf_opt KInt pxat
+      && is_flag ps
+      && Nat.leb (count_true [is_some ex; is_some px; is_some exat; is_some pxat; flag_of ps]) 1
+  | ("Expire" | "PExpire"), [k; n; nx; xx; gt; lt] =>
+      wf_val KStr k && wf_val KInt n && is_flag nx && is_flag xx && is_flag gt && is_flag lt
+      && negb (flag_of nx && (flag_of xx || flag_of gt || flag_of lt))
+      && negb (flag_of gt && flag_of lt)
+  | "ZRangeByScore", [k; mn; mx; ws; VOpt None] =>
+      wf_val KStr k && wf_val KStr mn && wf_val KStr mx && is_flag ws
+  | "ZRangeByScore", [k; mn; mx; ws; VOpt (Some (VP off cnt))] =>
+      wf_val KStr k && wf_val KStr mn && wf_val KStr mx && is_flag ws
+      && wf_val KInt off && wf_val KUsz cnt
+  | "Scan", [c; pat; cnt] => wf_val KU64 c && wf_opt KStr pat && wf_opt KUsz cnt
+  | ("HScan" | "ZScan"), [k; c; pat; cnt] =>
+      wf_val KStr k && wf_val KU64 c && wf_opt KStr pat && wf_opt KUsz cnt
+  | "Sort", [k; st] => wf_val KStr k && wf_opt KStr st
+  | "ZAdd", [k; VL ps; nx; xx; gt; lt; ch] =>
+      wf_val KStr k && nonempty ps && forallb (wf_pair KFloat KSds) ps
+      && is_flag nx && is_flag xx && is_flag gt && is_flag lt && is_flag ch
+      && match ps with
+         | VP (VF t) _ :: _ => match zadd_flag (ustr t) with None => true | Some _ => false end
+         | _ => false
+         end
+  | ("ZRange" | "ZRevRange"), [k; x; y; ws] =>
+      wf_val KStr k && wf_val KInt x && wf_val KInt y && is_flag ws
+  | "SPop", [k; VOpt None] => wf_val KStr k
+  | "SPop", [k; VOpt (Some n)] => wf_val KStr k && wf_val KUszStr n
+  | "LMove", [s; d; VS f; VS t] => wf_val KStr s && wf_val KStr d && is_dir f && is_dir t
+  | ("Eval" | "EvalSha"), [s; VL ks; VL vs] =>
+      wf_val KStr s && forallb (wf_val KStr) ks && forallb (wf_val KSds) vs
+  | "AclCat", [VOpt None] => true
+  | "AclCat", [VOpt (Some c)] => wf_val KStr c
+  | "AclGenPass", [VOpt None] => true
+  | "AclGenPass", [VOpt (Some n)] => wf_val KU32Str n
+  | "AclLog", [VOpt None] => true
+  | "AclLog", [VOpt (Some n)] => wf_val KUszStr n
+  | "AclLogReset", [] => true
+  | "CommandCommand", [] => true
+  | "CommandCount", [] => true
+  | "DebugSet", [VS sub; v] => bytes_eqb (ustr sub) sub && none_lookup sub debug_tbl && wf_val KStr v
+  | "Unknown", [VS n] => bytes_eqb (ustr n) n && none_lookup n grammar
+  | _, _ => false
+  end.
+Definition canonical (c : cmd) : bool :=
+  let '(Cmd tag a) := c in
+  match find_tag tag simple_index with
+  | Some (path, pre, tl) =>
+      wf_pre pre (firstn (List.length pre) a) && wf_tail tl (skipn (List.length pre) a)
+  | None => canonical_custom tag a
   end.
